@@ -224,6 +224,24 @@ def main(argv):
     except RuntimeError as e:
         broken.append("model evaluation: " + str(e)[-500:])
         chk.obligation("model evaluation", False, str(e))
+    # use_is_loading_global(): the model's scan of the live counters, state by state (theorem C13_global_loading_iff says what it means)
+    gmis = []
+    try:
+        chunk = 40
+        exprs = ["run_glob_all %s %s" % (asyncgen.FX, vlib.glist(["(%s, %s)" % (asyncgen.cq_nodes(p), asyncgen.cq_steps(s)) for p, s in cases[i:i + chunk]]))
+                 for i in range(0, len(cases), chunk)]
+        outs = vlib.coq_eval(PID + "g", asyncgen.PRE, exprs, per_file=max(1, (len(exprs) + 31) // 32))
+        mglob = [l.split(" ") for o in outs for l in o.split("\n")]
+        for (prog, steps), g, mg in zip(cases, glob, mglob):
+            seen = [x for x in g[:len(mg)]]
+            if any(a is not None and a != b for a, b in zip(seen, mg)) or len(mg) != len(steps) + 1:
+                gmis.append({"program": asyncgen.sx_nodes(prog), "schedule": asyncgen.sx_steps(steps), "impl": seen, "model": mg})
+    except RuntimeError as e:
+        broken.append("model evaluation (global flag): " + str(e)[-500:])
+    chk.obligation("correspondence: the model's global flag (scan of the live counters) = use_is_loading_global() after every step on %d scenarios" % len(cases),
+                   not gmis and not any(b.startswith("model evaluation (global") for b in broken), str(gmis[:1]))
+    if gmis:
+        broken.append("correspondence (global flag) differs on %d scenarios" % len(gmis))
     mism, orfail = [], list(afail) + list(ufail) + list(ffail) + list(wfail)
     for i, ((prog, steps), lines) in enumerate(zip(cases, impl)):
         key = asyncgen.sx_nodes(prog) + asyncgen.sx_steps(steps)
